@@ -137,6 +137,17 @@ def zst_search(tier, seed, hbin, rundir, _alarm):
                 step=len(lines) - 2, why=lines[0], impl=lines[0], no_minimise=True)
 
 
+def zst_cap_search(tier, seed, hbin, rundir, _alarm):
+    """C17 on degenerate and large item types: reservation post-conditions and an unsatisfiable request"""
+    p = subprocess.run([hbin, "zst", "cap"], stdout=subprocess.PIPE, stderr=subprocess.STDOUT, text=True)
+    zst_cap_search.stats = dict(degenerate_type_capacity_batteries=7)
+    if p.returncode == 0:
+        return None
+    lines = p.stdout.strip().split("\n")
+    return dict(header="(capacity functions on degenerate item/priority types; see harness/src/zst.rs)", ops=[l.strip() for l in lines[1:]],
+                step=len(lines) - 2, why=lines[0], impl=lines[0], no_minimise=True)
+
+
 def huge(kinds, aspects):
     """queues of 66 000 .. 133 000 elements (thorough: .. 1 050 000), straddling the
     powers of two 2^16 .. 2^20: far beyond what the extracted model can run.
